@@ -220,7 +220,7 @@ def embed_case(draw):
         bc = draw(st.sampled_from(["neumann", "dirichlet"]))  # not periodic, whatever the dimensions are called
     else:
         bc = ""
-    return {"g": g, "nvdim": draw(st.integers(1, 4)), "seed": draw(st.integers(0, 2**31)),
+    return {"g": g, "nvdim": draw(gen.nvdim_strategy()), "seed": draw(st.integers(0, 2**31)),
             "mask": draw(gen.mask_spec(nd)), "axis": axis, "order": draw(st.integers(1, 2)),
             "bc": bc, "r2v": draw(st.booleans()), "vdims": None, "unit": draw(st.sampled_from(gen.FIELD_UNITS))}
 
